@@ -192,7 +192,7 @@ func c13Run(c c13Case) (viol string) {
 		stream = stream[:c.Cut]
 	}
 	// what the server does with it
-	var r io.Reader = &chunkReader{r: bytes.NewReader(stream), n: 1000}
+	var r io.Reader = &chunkReader{r: bytes.NewReader(stream), n: c.Buf} // the stream reaches the decoder in pieces of the case's buffer size (1 byte ... 32 KiB)
 	if c.Gzip >= 0 {
 		zr, err := gzip.NewReader(r)
 		if err != nil {
